@@ -603,3 +603,48 @@ V("C09", "usage-bsize", P,
 V("C09", "benign-listcomp-total", I,
   ("        return nt(*(sum(x) for x in zip(*rawdict.values())))", "        return nt(*[sum(x) for x in zip(*rawdict.values())])"),
   "silent")
+
+# ----------------------------------------------------------------- C13
+V("C13", "rss-vms-swapped", L,
+  ("            vms, rss, shared, text, lib, data, dirty = (", "            rss, vms, shared, text, lib, data, dirty = ("),
+  "fires:C13.R1")
+V("C13", "statm-4k-literal", L,
+  ("                int(x) * PAGESIZE for x in f.readline().split()[:7]", "                int(x) * 4096 for x in f.readline().split()[:7]"),
+  "fires:C13.R1")
+V("C13", "rollup-pss-prefix-loose", L,
+  ("                    elif line.startswith(b\"Pss:\"):", "                    elif line.startswith(b\"Pss\"):"),
+  "fires:C13.R2")
+V("C13", "rollup-private-not-summed", L,
+  ("                        uss += int(line.split()[1]) * 1024", "                        uss = int(line.split()[1]) * 1024"),
+  "fires:C13.R2")
+V("C13", "smaps-regex-unanchored", L,
+  ("            _swap_re=re.compile(br\"\\nSwap\\:\\s+(\\d+)\"),", "            _swap_re=re.compile(br\"Swap\\:\\s+(\\d+)\"),"),
+  "fires:C13.R2")
+V("C13", "smaps-kb-not-scaled", L,
+  ("            pss = sum(map(int, _pss_re.findall(smaps_data))) * 1024", "            pss = sum(map(int, _pss_re.findall(smaps_data)))"),
+  "fires:C13.R2")
+V("C13", "uss-pss-order", L,
+  ("            return pfullmem(*basic_mem + (uss, pss, swap))", "            return pfullmem(*basic_mem + (pss, uss, swap))"),
+  "fires:C13.R2")
+V("C13", "fallback-too-broad", L,
+  ("                except (ProcessLookupError, FileNotFoundError):\n                    uss, pss, swap = self._parse_smaps()",
+   "                except OSError:\n                    uss, pss, swap = self._parse_smaps()"), "fires:C13.R2")
+V("C13", "maps-header-unbounded", L,
+  ("                hfields = header.split(None, 5)", "                hfields = header.split()"), "fires:C13.R3")
+V("C13", "maps-key-swapped", L,
+  ("                    data.get(b'Shared_Clean:', 0),\n                    data.get(b'Shared_Dirty:', 0),",
+   "                    data.get(b'Shared_Dirty:', 0),\n                    data.get(b'Shared_Clean:', 0),"), "fires:C13.R3")
+V("C13", "maps-kb", L,
+  ("                            data[fields[0]] = int(fields[1]) * 1024", "                            data[fields[0]] = int(fields[1])"),
+  "fires:C13.R3")
+V("C13", "group-by-perms", I,
+  ("                    path = tupl[2]\n                    nums = tupl[3:]", "                    path = tupl[1]\n                    nums = tupl[3:]"),
+  "fires:C13.R4")
+V("C13", "group-sums-from-4", I,
+  ("                    nums = tupl[3:]", "                    nums = tupl[4:]"), "fires:C13.R4")
+V("C13", "percent-no-validation", I,
+  ("        if memtype not in valid_types:\n            msg = (\n                f\"invalid memtype {memtype!r}; valid types are\"\n                f\" {tuple(valid_types)!r}\"\n            )\n            raise ValueError(msg)\n",
+   ""), "fires:C13.R5")
+V("C13", "percent-ratio-inverted", I,
+  ("        return (value / float(total_phymem)) * 100", "        return (float(total_phymem) / value) * 100"),
+  "fires:C13.R5")
